@@ -173,6 +173,15 @@ def handleEnv (op : String) : P String := do
           | _ => failure
       let outs ← go n (Machine.init d) []
       pure (" ; ".intercalate outs)
+  | "cfg" => do
+      let r ← pRegs
+      let y ← pYaml 12
+      pure (showExcept showDesc (buildDesc r y))
+  | "factory" => do
+      let reg ← pCounted pSig
+      let name ← tok
+      let kws ← pCounted tok
+      pure (showExcept (fun (r : Sig × List String) => ",".intercalate r.2) (factoryCheck reg name kws))
   | "repr" => do
       match (← tok) with
       | "state" => do
